@@ -56,7 +56,7 @@ class Body:
         r = self._reach_cache.get(key)
         if r is not None:
             return r
-        rem = set(removed_edges)
+        rem = set(removed_edges) | self.infeasible_edges()
         rb = set(removed_blocks)
         seen = set()
         if start in rb:
@@ -73,6 +73,32 @@ class Body:
                 st.append(y)
         self._reach_cache[key] = seen
         return seen
+
+    def infeasible_edges(self):
+        """the `otherwise` edge of a switch on an enum discriminant whose targets already name every variant can never be taken
+        (MIR built without optimisation re-uses a wildcard arm as that otherwise target)"""
+        ie = getattr(self, "_infeasible", None)
+        if ie is not None:
+            return ie
+        self._infeasible = set()          # guards against re-entry while sources are being computed
+        out = set()
+        for bi, blk in enumerate(self.blocks):
+            t = blk["t"]
+            if t["k"] != "switch":
+                continue
+            try:
+                src = self.bool_operand_source(t["op"])
+            except Exception:
+                src = None
+            if not src or src.get("kind") != "discr" or not src.get("vars"):
+                continue
+            named = {v for v, _ in t["targets"]}
+            tgts = {tb for _, tb in t["targets"]}
+            if set(src["vars"].keys()) <= named and t["otherwise"] not in tgts:
+                out.add((bi, t["otherwise"]))
+        self._infeasible = out
+        self._reach_cache = {}
+        return out
 
     def live_blocks(self):
         return self.reachable(0)
